@@ -127,7 +127,11 @@ func (f Fault) String() string {
 }
 
 // Kinds that damage the content of a file.
-var ContentKinds = []string{"short_read", "torn_write", "lost_block", "zero_block", "dup_block", "swap_blocks", "flip", "crlf", "bom", "empty", "splice"}
+var ContentKinds = []string{"short_read", "torn_write", "lost_block", "zero_block", "dup_block", "swap_blocks", "flip", "crlf", "bom", "empty", "splice", "graft", "wrap"}
+
+// WrapHeaders are put in front of a line by the "wrap" fault (an editor typing a control statement header
+// in front of an existing statement: the line becomes the single-statement body)
+var WrapHeaders = []string{"Wenn wahr, ", "Solange falsch, ", "Für jede Zahl zaehler von 1 bis 2, ", "Wenn falsch, dann:\n\t", "Sonst "}
 
 // Kinds that replace the file by another filesystem object.
 var ObjectKinds = []string{"enoent", "eisdir", "eloop", "dangling", "enotdir"}
@@ -240,6 +244,55 @@ func ApplyContent(f Fault, src []byte, alt []byte) []byte {
 		out := append([]byte{}, nv[:k]...)
 		if k < n {
 			out = append(out, src[k:]...)
+		}
+		return out
+	case "graft":
+		// some lines of another file (a paste from the clipboard) inserted at a line boundary
+		if alt == nil {
+			alt = src
+		}
+		al := bytes.SplitAfter(alt, []byte("\n"))
+		sl := bytes.SplitAfter(src, []byte("\n"))
+		if len(al) == 0 {
+			return src
+		}
+		a := clamp(f.Off2, 0, len(al)-1)
+		b := clamp(a+max(f.Len, 1), a+1, len(al))
+		at := clamp(f.Off, 0, len(sl))
+		var out []byte
+		for _, l := range sl[:at] {
+			out = append(out, l...)
+		}
+		if len(out) > 0 && out[len(out)-1] != '\n' {
+			out = append(out, '\n')
+		}
+		for _, l := range al[a:b] {
+			out = append(out, l...)
+		}
+		if len(out) > 0 && out[len(out)-1] != '\n' {
+			out = append(out, '\n')
+		}
+		for _, l := range sl[at:] {
+			out = append(out, l...)
+		}
+		return out
+	case "wrap":
+		sl := bytes.SplitAfter(src, []byte("\n"))
+		if len(sl) == 0 {
+			return src
+		}
+		at := clamp(f.Off, 0, len(sl)-1)
+		h := WrapHeaders[clamp(f.Len, 0, len(WrapHeaders)-1)]
+		var out []byte
+		for i, l := range sl {
+			if i == at {
+				ind := len(l) - len(bytes.TrimLeft(l, " \t"))
+				out = append(out, l[:ind]...)
+				out = append(out, h...)
+				out = append(out, l[ind:]...)
+			} else {
+				out = append(out, l...)
+			}
 		}
 		return out
 	case "splice":
